@@ -17,7 +17,7 @@ ShouldReject(setter, n, fpPresent) ==
     [] setter = "nonce"     -> n > TextLimit(AttrNonce)
     [] setter = "software"  -> n > TextLimit(AttrSoftware)
     [] setter = "reason"    -> n > ReasonLimit
-    [] setter \in {"xorip", "mappedip"} -> n \notin {4, 16}
+    [] setter \in {"xorip", "mappedip", "altserver", "origin", "other"} -> n \notin {4, 16}   \* whatever the bytes are
     [] setter = "errorcode" -> n \notin DefaultReasonCodes
     [] setter = "integrity" -> fpPresent
     [] OTHER -> FALSE
@@ -25,6 +25,7 @@ ShouldReject(setter, n, fpPresent) ==
 TypeOfSetter(setter) ==
   CASE setter = "username" -> 6 [] setter = "realm" -> 20 [] setter = "nonce" -> 21 [] setter = "software" -> 32802
     [] setter \in {"reason", "errorcode"} -> 9 [] setter = "xorip" -> 32 [] setter = "mappedip" -> 1
+    [] setter = "altserver" -> 32803 [] setter = "origin" -> 32811 [] setter = "other" -> 32812
     [] setter = "integrity" -> 8 [] setter = "fingerprint" -> 32808 [] OTHER -> 0
 
 SetLine(n, e) ==
